@@ -511,6 +511,34 @@ def norm(x, ord=None, axis=None, **kw):
 _UNINTERP = {'count': 0}
 
 
+def _memo_uf(name, a, build):
+    """uninterpreted library results are functions of their argument: equal arguments give the same result"""
+    c = T.ctx()
+    if c is None:
+        return build()
+    memo = c.fresh.setdefault(('ufmemo', name), [])
+    cells = tuple(SR.lift(x) for x in asarray(a).reshape(-1))
+    alg = c.ex.alg
+    for (shape0, cells0, res0) in memo:
+        if shape0 == a.shape and len(cells0) == len(cells):
+            same = True
+            for x, y in zip(cells, cells0):
+                if x is y:
+                    continue
+                try:
+                    nf = alg.nf_diff(x, y)[0] if alg is not None else {1: 1}
+                except Exception:
+                    nf = {1: 1}
+                if nf:
+                    same = False
+                    break
+            if same:
+                return res0.copy()
+    res = build()
+    memo.append((a.shape, cells, res))
+    return res.copy()
+
+
 def _fresh_matrix(prefix, shape):
     _UNINTERP['count'] += 1
     k = _UNINTERP['count']
@@ -536,16 +564,18 @@ def inv(a):
                 adj[j, i] = cof if (i + j) % 2 == 0 else -cof
         return S(adj / d)
     # A4: inv(A) is some X with X A = A X = I when det A != 0 (not checked here: assumption)
-    x = _fresh_matrix('inv', (n, n))
-    if c is not None:
-        c.note_assumption('A4: numpy.linalg.inv(A) @ A == A @ inv(A) == I (for invertible A)')
-        prod1 = S(_np.dot(x, a))
-        prod2 = S(_np.dot(a, x))
-        for i in range(n):
-            for j in range(n):
-                c.assume(T.eq(prod1[i, j], 1 if i == j else 0), tag='A4')
-                c.assume(T.eq(prod2[i, j], 1 if i == j else 0), tag='A4')
-    return x
+    def build():
+        x = _fresh_matrix('inv', (n, n))
+        if c is not None:
+            c.note_assumption('A4: numpy.linalg.inv(A) @ A == A @ inv(A) == I (for invertible A)')
+            prod1 = S(_np.dot(x, a))
+            prod2 = S(_np.dot(a, x))
+            for i in range(n):
+                for j in range(n):
+                    c.assume(T.eq(prod1[i, j], 1 if i == j else 0), tag='A4')
+                    c.assume(T.eq(prod2[i, j], 1 if i == j else 0), tag='A4')
+        return x
+    return _memo_uf('inv', a, build)
 
 
 def pinv(a, *args, **kw):
@@ -553,13 +583,16 @@ def pinv(a, *args, **kw):
     if a.dtype != object:
         return _np.linalg.pinv(a, *args, **kw)
     c = T.ctx()
-    x = _fresh_matrix('pinv', (a.shape[1], a.shape[0]))
-    if c is not None:
-        c.note_assumption('A4: numpy.linalg.pinv(A) is an uninterpreted matrix of the transposed shape')
-        hook = getattr(c, 'pinv_hook', None)
-        if hook is not None:
-            hook(a, x)
-    return x
+
+    def build():
+        x = _fresh_matrix('pinv', (a.shape[1], a.shape[0]))
+        if c is not None:
+            c.note_assumption('A4: numpy.linalg.pinv(A) is an uninterpreted (deterministic) matrix of the transposed shape')
+            hook = getattr(c, 'pinv_hook', None)
+            if hook is not None:
+                hook(a, x)
+        return x
+    return _memo_uf('pinv', a, build)
 
 
 def solve(a, b):
